@@ -338,3 +338,50 @@ Example history_example :
 Proof.
   cbn zeta. split; [repeat constructor; cbn; lia |]. exists None. split; reflexivity.
 Qed.
+
+(** ** Histories that also use the sampling facility the integrators draw from *)
+
+(** Sample_Uniform(PRNG, a, b) with a < b lies in [a, b) for every draw of the generator in [0,1); with the default limits it is the draw itself *)
+Lemma sample_uniform_in_range (us : Z -> R) pos a b : 0 <= us pos < 1 -> a < b -> a <= sample_uniform ROps us pos a b < b.
+Proof. intros [H0 H1] Hab. unfold sample_uniform. cbn. split; nra. Qed.
+
+Lemma sample_uniform_default (us : Z -> R) pos : sample_uniform ROps us pos 0 1 = us pos.
+Proof. unfold sample_uniform. cbn. ring. Qed.
+
+Lemma sample_uniforms_length (us : Z -> R) : forall ranges pos, length (sample_uniforms ROps us ranges pos) = length ranges.
+Proof. induction ranges as [| [a b] r IH]; intros pos; cbn; [reflexivity | now rewrite IH]. Qed.
+
+(** the integrations among the events *)
+Fixpoint calls_of (h : list (@hevent R)) : list (@hcall R) :=
+  match h with
+  | [] => []
+  | E_call c :: h' => c :: calls_of h'
+  | E_draws _ _ :: h' => calls_of h'
+  end.
+
+(** draws leave the statics of the integrators alone: the statics after the events are those after the integrations among them *)
+Lemma run_events_calls : forall h s, run_events ROps s h = run_history ROps s (calls_of h).
+Proof.
+  induction h as [| e h IH]; intros s; [reflexivity |].
+  destruct e as [c | dus ranges]; cbn [run_events run_event calls_of run_history].
+  - destruct (integrate_mc_throwing ROps (h_us c) s (h_m c) (h_f c) (h_region c) (h_ncalls c) (h_n c)) as [[o s1] | | |]; cbn [rbind fst snd]; [apply IH | reflexivity ..].
+  - cbn [rbind fst]. apply IH.
+Qed.
+
+Definition events_ok (h : list (@hevent R)) : Prop := history_ok (calls_of h).
+
+Theorem run_events_wf h s s' : wf_statics s -> events_ok h -> run_events ROps s h = Ok s' -> wf_statics s'.
+Proof. intros W Hh H. rewrite run_events_calls in H. exact (run_history_wf _ _ _ W Hh H). Qed.
+
+(** the observed call after any such events returns what it returns in a fresh process *)
+Theorem observed_call_forgets_events us h s m f region ncalls :
+  events_ok h -> run_events ROps (vstate0 ROps) h = Ok s -> (rdim region <= 10)%nat ->
+  rmap fst (integrate_mc ROps us s m f region ncalls) = rmap fst (integrate_mc ROps us (vstate0 ROps) m f region ncalls).
+Proof. intros Hh H Hd. rewrite run_events_calls in H. exact (observed_call_forgets_history us _ s m f region ncalls Hh H Hd). Qed.
+
+(** non-vacuity: an isotropic direction drawn before the observed call *)
+Example events_example :
+  let e := E_draws (fun _ => 1 / 2) [(0, 2 * PI); (-1, 1)] in
+  events_ok [e] /\ run_events ROps (vstate0 ROps) [e] = Ok (vstate0 ROps) /\
+  run_event ROps (vstate0 ROps) e = Ok (vstate0 ROps, [1 / 2 * (2 * PI - 0) + 0; 1 / 2 * (1 - -1) + -1]).
+Proof. cbn zeta. split; [constructor | split; reflexivity]. Qed.
